@@ -212,7 +212,12 @@ def finish(ctx, meta, cmdline):
                             'a failing path, entries never changed) and '
                             'package decorators are transparent, for the '
                             'functions reachable from the property\'s entry '
-                            'points']
+                            'points',
+                            'DP no search-loop variable read after an '
+                            'unguarded loop, no stale snapshot of self.X in '
+                            'a loop that rebinds it, no mutable bound to two '
+                            'targets, no container shared between instances '
+                            '/ calls, on the same functions']
         + list(meta.get('decided', [])),
         'undecided_clauses': meta.get('undecided', []),
         'advisories': ctx.advisories,
